@@ -26,7 +26,8 @@ everything the whole machine can do, not per component.
 
 3. MACHINE CYCLE (`c17_whole_cycle`).  "The CPU wrote address a in this cycle" is expressed by running the SAME
    CPU model on the board wrapped with a ghost write log (`Lemmas/GhostBus.lean`; `cpuWrites w`; the wrapper does
-   not interfere: `cpuWrites_faithful`).  If the window is closed at the start of the cycle, no transfer runs,
+   not interfere: `cpuWrites_faithful`; what it logs are the write addresses of the one micro-operation executed in
+   the cycle: `cpuWrites_addrs`).  If the window is closed at the start of the cycle, no transfer runs,
    and the program in this cycle neither writes FF46 nor switches the LCD on, then every OAM byte that differs
    after the cycle was the target of a CPU bus write in this cycle.
 
@@ -678,6 +679,18 @@ theorem cpuWrites_faithful (w : Whole) :
     (Cpu.cycle Cpu.Tables.gen w.cpu ({ bus := w.b, wr := [] } : Ghost Board)).1 = (afterCpu w).1 ∧
     (Cpu.cycle Cpu.Tables.gen w.cpu ({ bus := w.b, wr := [] } : Ghost Board)).2.bus = (afterCpu w).2 :=
   cycle_ghost Cpu.Tables.gen w.cpu { bus := w.b, wr := [] }
+
+/-- … and what it logs is explicit: the addresses are those written by the ONE micro-operation the CPU executes in
+    this cycle (`GhostBus.writeAddrs`, a function of the micro-operation and the registers it starts from;
+    instruction fetch and the interrupt check write nothing) -/
+theorem cpuWrites_addrs (w : Whole) (hs : w.stopped = false) :
+    (cpuWrites w).map (·.1) = cycleWriteAddrs Cpu.Tables.gen w.cpu w.b := by
+  have h := cycle_wr_addrs Cpu.Tables.gen w.cpu ({ bus := w.b, wr := [] } : Ghost Board)
+  unfold cpuWrites
+  rw [hs]
+  simp only [Bool.false_eq_true, if_false]
+  rw [h]
+  rfl
 
 /-- the program starts no OAM DMA transfer: no write to FF46 -/
 def NoDmaStart (wr : List (Cpu.Word × Cpu.Byte)) : Prop := ∀ p ∈ wr, p.1.toNat ≠ 0xFF46
